@@ -233,6 +233,19 @@ example : appRun [] [[6], [2, 1], [2, 0xfd, 3], [0x20, 1, 7]] = ([[6, 2, 1, 2], 
       · exact ⟨by decide, by decide⟩)
     (by decide)
 
+/-- non-vacuity on the application side: type 6 in the 3-byte form, length 2 in the 5-byte form — the engine gets
+    the bytes that were sent (F-11c), then an ordinary block -/
+example : appRun [] [[0xfd, 0], [6, 0xfe, 0, 0], [0, 2, 1], [2, 6, 2, 1, 2]] =
+    ([[0xfd, 0, 6, 0xfe, 0, 0, 0, 2, 1, 2], [6, 2, 1, 2]], Outcome.eof) :=
+  app_refines_blocks [[0xfd, 0, 6, 0xfe, 0, 0, 0, 2, 1, 2], [6, 2, 1, 2]] _
+    (by
+      intro b hb
+      simp at hb
+      rcases hb with rfl | rfl
+      · exact ⟨by decide, by decide⟩
+      · exact ⟨by decide, by decide⟩)
+    (by decide)
+
 /-- application side, after every chunk: exactly the completely received blocks were handed up -/
 theorem app_prompt (blocks : List Bytes) (chunks later : List Bytes)
     (hadm : Admissible blocks) (hcut : (chunks ++ later).flatten = blocks.flatten) :
